@@ -362,11 +362,16 @@ def h_direct(env, **cfg):
     return c05_grid.h_direct(env, _real_world(), STATS, _dot, **cfg)
 
 
+def h_angc_wrapper(env, **cfg):
+    return c05_grid.h_angc_wrapper(env, **cfg)
+
+
 def _grid_tasks(tier):
     out = [Task("grid_link/LCAOInterpolator/n0=1,n1=1", h_orb2grid, {}),
            Task("grid_link/Direct/n0=1,n1=1/pruned", h_direct, {}),
            Task("grid_link/Direct/n0=1,n1=1/padded_unpruned", h_direct, dict(padding=1, prune=False)),
            Task("grid_link/Direct/n0=2,n1=0", h_direct, dict(n0=2, n1=0))]
+    out += [Task("angc_ylm_wrapper/%s" % lay, h_angc_wrapper, dict(layout=lay)) for lay in ("contiguous", "transposed", "every_other_row")]
     if tier == "thorough":
         out += [Task("grid_link/LCAOInterpolator/n0=2,n1=2", h_orb2grid, dict(n0=2, n1=2)),
                 Task("grid_link/Direct/n0=2,n1=2/padded", h_direct, dict(n0=2, n1=2, padding=2)),
@@ -407,7 +412,7 @@ def prepare(tier):
     for t in _grid_tasks(tier):
         if t.fn is h_direct:
             c05_grid.make_direct(W, **t.cfg)
-        else:
+        elif t.fn is h_orb2grid:
             c05_grid.make_interp(W, **t.cfg)
 
 
@@ -431,7 +436,7 @@ def extra_evidence(results):
 META = dict(
     explanation="clang LLVM IR of forward and backward C routines executed on symbolic vectors (structs read from the real library's memory); "
                 "z3 decides the bilinear adjoint identity; interpreter validated against the compiled .so on concrete inputs",
-    functions=["ciderpress/lib/mod_cider/cider_grids.c: reduce_angc_to_ylm, reduce_ylm_to_angc (dgemm_ by reference-BLAS semantics)",
+    functions=['ciderpress/dft/grids_indexer.py: AtomicGridsIndexer.reduce_angc_ylm_ with strided views (angc_ylm_wrapper/*)', "ciderpress/lib/mod_cider/cider_grids.c: reduce_angc_to_ylm, reduce_ylm_to_angc (dgemm_ by reference-BLAS semantics)",
                "ciderpress/lib/mod_cider/convolutions.c: contract_rad_to_orb, contract_orb_to_rad, multiply_atc_integrals(fwd=1/0), multiply_atc_integrals_vk(fwd=1/0)",
                "ciderpress/lib/mod_cider/conv_interpolation.c: project_conv_to_spline, project_spline_to_conv, fill_l1_coeff_fwd, fill_l1_coeff_bwd (real Gaunt table from sph_harm_coeff.get_deriv_ylm_coeff)",
                "ciderpress/dft/plans.py: NLDFGaussianPlan._get_transformed_interpolation_terms (fwd/bwd, in place and copy)",
